@@ -158,6 +158,47 @@ func addRangeRule(w *World, r *Report, rule string, fns []*ssa.Function, sel fun
 	return n
 }
 
+// forkHelperClosure: the named functions of package vm plus the fork-only (NEW) plain functions of the
+// package they call statically, transitively: a decoder split into helpers is still judged as a whole.
+func forkHelperClosure(w *World, roots []string) []string {
+	seen := map[string]bool{}
+	var out []string
+	var visit func(rel string)
+	visit = func(rel string) {
+		if seen[rel] {
+			return
+		}
+		seen[rel] = true
+		out = append(out, rel)
+		fn := w.Func(forkPath(pkVM), strings.TrimPrefix(rel, "vm."))
+		if fn == nil {
+			return
+		}
+		for _, f := range withAnon(fn) {
+			for _, b := range f.Blocks {
+				for _, ins := range b.Instrs {
+					ci, ok := ins.(ssa.CallInstruction)
+					if !ok {
+						continue
+					}
+					c := ci.Common().StaticCallee()
+					if c == nil || c.Pkg == nil || c.Pkg.Pkg.Path() != forkPath(pkVM) || c.Signature.Recv() != nil || c.Parent() != nil {
+						continue
+					}
+					if w.funcIdx[refPath(pkVM)][c.Name()] != nil {
+						continue // inherited: covered by the clone rules
+					}
+					visit("vm." + c.Name())
+				}
+			}
+		}
+	}
+	for _, r := range roots {
+		visit(r)
+	}
+	return out
+}
+
 func fnIn(names ...string) func(fn *ssa.Function) bool {
 	return func(fn *ssa.Function) bool {
 		top := fn
@@ -526,23 +567,7 @@ func checkC09(w *World, tier string) *Report {
 			}
 			if first && g.Parent() == fn {
 				first = false
-				k, ok := g.Call.Args[1].(*ssa.Call)
-				okSlot := false
-				if ok {
-					if cal := k.Call.StaticCallee(); cal != nil && cal.Name() == "Bytes32" && len(k.Call.Args) == 1 && k.Call.Args[0] == slot {
-						okSlot = true
-					}
-				}
-				// the key may travel through a ChangeType to common.Hash
-				if !okSlot {
-					if ct, isCt := g.Call.Args[1].(*ssa.ChangeType); isCt {
-						if k, ok := ct.X.(*ssa.Call); ok {
-							if cal := k.Call.StaticCallee(); cal != nil && cal.Name() == "Bytes32" && len(k.Call.Args) == 1 && k.Call.Args[0] == slot {
-								okSlot = true
-							}
-						}
-					}
-				}
+				okSlot := isBytes32Of(g.Call.Args[1], slot, 0)
 				if !okSlot {
 					bad = "the storage word is not read at the 32-byte form of the slot operand the entry is filed under"
 				}
@@ -599,7 +624,7 @@ func checkC09(w *World, tier string) *Report {
 	})
 	r.need("R9.9", 2)
 	r.need("R9.5", 3)
-	r.need("R9.6", 2)
+	r.need("R9.6", 1)
 	r.need("R9.7", 2)
 	return r
 }
@@ -728,7 +753,7 @@ func checkC14(w *World, tier string) *Report {
 		}
 	}
 	targets := w.rangeTargets(pkVM)
-	addRangeRule(w, r, "R14.2", targets, fnIn(append(runNames, "vm.loadParamBytes")...))
+	addRangeRule(w, r, "R14.2", targets, fnIn(forkHelperClosure(w, append(runNames, "vm.loadParamBytes"))...))
 	r.need("R14.2", 6)
 	addNilCtxRule(w, r, "R14.3")
 	// R14.4 / R14.5 / R14.6
@@ -809,7 +834,14 @@ func checkC14(w *World, tier string) *Report {
 	}
 	addExecCtxRule(w, r, "R14.5")
 	addCtxCloneRule(w, r, "R14.7")
-	addJustifiedRefusalRule(w, r, "R14.8", []string{"loadParamBytes"}, nil)
+	{
+		// the decoder and the fork helpers it is split into
+		var names []string
+		for _, n := range forkHelperClosure(w, []string{"vm.loadParamBytes"}) {
+			names = append(names, strings.TrimPrefix(n, "vm."))
+		}
+		addJustifiedRefusalRule(w, r, "R14.8", names, nil)
+	}
 	addNoUnsafeRule(w, r, "R3.7") // keys and values handed to the host are copies: no unsafe string/slice views of the caller's memory
 	r.need("R14.8", 4)
 	r.need("R14.4", 3)
@@ -938,16 +970,34 @@ func addExecCtxRule(w *World, r *Report, rule string) {
 				}
 				n++
 				pos = w.pos(st.Pos())
-				if relName(fn) != "vm.(*EVM).Call" {
-					bad = append(bad, "ExecutionContext.from is written in "+relName(fn))
-					continue
-				}
 				c, ok := st.Val.(*ssa.Call)
 				okv := false
 				if ok && c.Call.IsInvoke() && c.Call.Method.Name() == "Address" {
 					if p, isP := c.Call.Value.(*ssa.Parameter); isP && typeBaseName(p.Type()) == "ContractRef" {
 						okv = true
+						if relName(fn) != "vm.(*EVM).Call" {
+							// a helper of EVM.Call: every call site lies in EVM.Call and binds the parameter to Call's own caller
+							sites, addrTaken := staticCallSitesOf(w, fn)
+							idx := paramIndex(fn, p)
+							if addrTaken || len(sites) == 0 || idx < 0 {
+								okv = false
+							}
+							for _, cs := range sites {
+								arg, isP := cs.Common().Args[idx].(*ssa.Parameter)
+								if relName(cs.Parent()) != "vm.(*EVM).Call" || !isP || typeBaseName(arg.Type()) != "ContractRef" {
+									okv = false
+								}
+							}
+							if !okv {
+								bad = append(bad, "ExecutionContext.from is written in "+relName(fn)+", which is not (a helper called only by) EVM.Call with Call's own caller")
+								continue
+							}
+						}
 					}
+				}
+				if !okv && relName(fn) != "vm.(*EVM).Call" {
+					bad = append(bad, "ExecutionContext.from is written in "+relName(fn))
+					continue
 				}
 				if !okv {
 					bad = append(bad, "ExecutionContext.from is not caller.Address() of this call at "+w.pos(st.Pos()))
@@ -963,6 +1013,63 @@ func addExecCtxRule(w *World, r *Report, rule string) {
 	} else {
 		r.holds(rule, "ExecutionContext.from", pos, "set once, in EVM.Call, to caller.Address() — the contract whose call reached the precompile")
 	}
+}
+
+// isBytes32Of: v is slot.Bytes32(), possibly converted to common.Hash or kept in a local that is assigned once.
+func isBytes32Of(v, slot ssa.Value, depth int) bool {
+	if depth > 4 {
+		return false
+	}
+	switch x := v.(type) {
+	case *ssa.ChangeType:
+		return isBytes32Of(x.X, slot, depth+1)
+	case *ssa.Convert:
+		return isBytes32Of(x.X, slot, depth+1)
+	case *ssa.Call:
+		cal := x.Call.StaticCallee()
+		return cal != nil && cal.Name() == "Bytes32" && len(x.Call.Args) == 1 && x.Call.Args[0] == slot
+	case *ssa.UnOp:
+		if a, ok := x.X.(*ssa.Alloc); ok && x.Op == token.MUL {
+			if s := singleStore(a); s != nil {
+				return isBytes32Of(s, slot, depth+1)
+			}
+		}
+	}
+	return false
+}
+
+// staticCallSitesOf: the static call sites of fn in the fork packages; addrTaken when fn is also used as a value.
+func staticCallSitesOf(w *World, fn *ssa.Function) (sites []ssa.CallInstruction, addrTaken bool) {
+	for _, f := range w.forkFuncsAll() {
+		for _, b := range f.Blocks {
+			for _, ins := range b.Instrs {
+				if ci, ok := ins.(ssa.CallInstruction); ok && ci.Common().StaticCallee() == fn {
+					sites = append(sites, ci)
+					for _, a := range ci.Common().Args {
+						if a == ssa.Value(fn) {
+							addrTaken = true
+						}
+					}
+					continue
+				}
+				for _, op := range ins.Operands(nil) {
+					if op != nil && *op == ssa.Value(fn) {
+						addrTaken = true
+					}
+				}
+			}
+		}
+	}
+	return
+}
+
+func paramIndex(fn *ssa.Function, p *ssa.Parameter) int {
+	for i, q := range fn.Params {
+		if q == p {
+			return i
+		}
+	}
+	return -1
 }
 
 // addCtxCloneRule: types with a CloneWithCtx method (context-carrying precompiles).
@@ -1039,7 +1146,7 @@ func checkC19(w *World, tier string) *Report {
 	r := newReport("C19")
 	r.Explanation = "Structural necessary condition 'finish without panic' only: R19.1 (E3) every index/slice obligation in the fork-only functions of tracers/native and in the fork insertions of its modified functions (CaptureAspectEnter/Exit, CaptureExit, clearFailedLogs, flatFromNested, flatAspectNested, newFlatJoinPoint …) is entailed by the dominating guards, given the reviewed field invariant len(callTracer.callstack) >= 1 (R19.0, checked inductively: the constructor makes one frame and the only shrinking store keeps size-1 >= 1 elements); plus the inherited flatCallTracer.CaptureExit, whose safety rested on a callee postcondition the fork changed. Inherited tracer code that is a clone of the reference is the reference's (C18) and is not re-analysed. " +
 		"R19.2 (resolved AST of the flattening functions) the collections summed into a frame's Subtraces are exactly the collections whose elements are emitted recursively, a collection ranged over once is emitted unconditionally and one ranged over twice is split by complementary skip conditions — so the declared sub-trace count equals the number of children emitted by that step and no child is emitted twice or dropped; R19.3 nil-field must-analysis (as C03 R3.5) on the same functions; R19.4 (may-alias roots through result summaries) the trace address handed to every recursive emission in the flattening functions is a fresh slice — it shares storage neither with the parent's address nor with a sibling's, so addresses stored in emitted frames cannot be overwritten by later appends; R19.5 state that is set when an Aspect execution is entered and reset when it is left (the 'an Aspect is running' marker consulted by CaptureExit) is stored in the frame record (an element of the call stack), never in the tracer itself: Aspect executions of different open frames interleave, so a tracer-wide marker is cleared by an inner Aspect's exit while the outer one still runs. " +
-		"R19.6 in the flattening functions the address operator is never applied to a range variable (one variable per loop under the module's language version: frames built from it would all point at the last element); R19.7 the sibling flattening functions discard a frame's Result under the same guard, a condition over the input record only. " +
+		"R19.10 in callTracer.CaptureExit (or the helper it uses) exactly one of the two appends of a finished call executes, the one under the Aspect execution only while the frame's marker is set and the one to the parent frame whenever it is not (guards compared as truth tables over their atomic tests); R19.6 in the flattening functions the address operator is never applied to a range variable (one variable per loop under the module's language version: frames built from it would all point at the last element); R19.7 the sibling flattening functions discard a frame's Result under the same guard, a condition over the input record only. " +
 		"R19.8 (E3 entailment) every write CaptureAspectExit makes into an element of a frame's JoinPoints addresses the element opened last (index len-1) — Aspect executions of one call frame do not nest, so that is the execution the exit event completes. " +
 		"R19.9 a call frame on the tracer's stack is never overwritten wholesale and its JoinPoints list is only appended to by CaptureAspectEnter: Aspect executions recorded before CaptureStart (pre-transaction join points) or before a later event survive. " +
 		"Not decided: exactly-once emission, sub-trace counts and trace-address uniqueness — properties of event histories, outside static reach."
@@ -1060,6 +1167,7 @@ func checkC19(w *World, tier string) *Report {
 	addTraceAddressRule(w, r, "R19.4")
 	addLoopVarAddressRule(w, r, "R19.6")
 	addSiblingGuardRule(w, r, "R19.7")
+	addAttachRule(w, r, "R19.10")
 	addExitClosesLastRule(w, r, "R19.8")
 	addNoFrameOverwriteRule(w, r, "R19.9")
 	addFrameScopedMarkerRule(w, r, "R19.5")
@@ -1361,6 +1469,30 @@ func checkC20(w *World, tier string) *Report {
 	classOf := w.funcClasses()
 	env := w.rangeEnv()
 	nf := 0
+	// resource obligations are keyed by the root they are reachable from (instruction / precompile) and
+	// numbered in visiting order, so that moving a loop into a helper of the same instruction keeps its key
+	rootOf := map[*ssa.Function]*ssa.Function{}
+	for _, root := range roots {
+		var mark func(f *ssa.Function)
+		mark = func(f *ssa.Function) {
+			if f == nil || f.Blocks == nil || rootOf[f] != nil || !isForkPkg(f.Pkg) && f.Parent() == nil {
+				return
+			}
+			rootOf[f] = root
+			for _, a := range f.AnonFuncs {
+				mark(a)
+			}
+			for _, b := range f.Blocks {
+				for _, ins := range b.Instrs {
+					if ci, ok := ins.(ssa.CallInstruction); ok {
+						mark(ci.Common().StaticCallee())
+					}
+				}
+			}
+		}
+		mark(root)
+	}
+	ordByRoot := map[string]int{}
 	for _, fn := range order {
 		top := fn
 		for top.Parent() != nil {
@@ -1375,6 +1507,17 @@ func checkC20(w *World, tier string) *Report {
 			rule := "R20.2"
 			if strings.Contains(o.Key, "/loop#") {
 				rule = "R20.1"
+			}
+			if rt := rootOf[fn]; rt != nil {
+				kind := o.Key[strings.LastIndex(o.Key, "/")+1:]
+				if i := strings.Index(kind, "#"); i >= 0 {
+					kind = kind[:i]
+				}
+				ordByRoot[relName(rt)+"/"+kind]++
+				o.Key = fmt.Sprintf("%s/%s#%d", relName(rt), kind, ordByRoot[relName(rt)+"/"+kind])
+				if fn != rt {
+					o.What += " (in " + relName(fn) + ")"
+				}
 			}
 			if o.Status == Holds {
 				r.holds(rule, o.Key, w.pos(o.Pos), o.What+" — "+o.By)
